@@ -29,6 +29,24 @@ type Case struct {
 	// Pre > 0: the wrapper is created and rendered once after Pre-1 operations, while the table is still being
 	// built (headers may be replaced afterwards); the checked render goes through that same wrapper.
 	Pre int `json:"pre,omitempty"`
+	// SkipByCallback: the Skip settings are not made directly but by a render-time callback on the table itself
+	// (that is what render-time callbacks are for: what they set is what the renderer of that very pass reads)
+	SkipByCallback bool `json:"skip_by_callback,omitempty"`
+}
+
+type skipSetter struct {
+	t    tabular.Table
+	skip []int
+}
+
+func (s skipSetter) UpdateProperties(tabular.PropertyOwner) error {
+	n := s.t.NColumns()
+	for i, code := range s.skip {
+		if v := skipValue(code); v != nil && i <= n {
+			s.t.Column(i).SetProperty(properties.Skipable, v)
+		}
+	}
+	return nil
 }
 
 // PropOp: Key "skip" (Val 0 remove, 1 true, 2 false, 3 non-bool), "align" (Val 0 remove, 1..3) or "user" (Val 0 remove, else a value).
@@ -46,10 +64,13 @@ func applyProps(t tabular.Table, c Case, n int) []int {
 	for i, code := range c.Skip {
 		if i <= n {
 			codes[i] = code
-			if v := skipValue(code); v != nil {
+			if v := skipValue(code); v != nil && !c.SkipByCallback {
 				t.Column(i).SetProperty(properties.Skipable, v)
 			}
 		}
+	}
+	if c.SkipByCallback {
+		t.RegisterPropertyCallback(t, tabular.CB_AT_RENDER_PRECELL, tabular.CB_ON_ITSELF, skipSetter{t, c.Skip})
 	}
 	for _, op := range c.Props {
 		col := ((op.Col % (n + 1)) + n + 1) % (n + 1)
